@@ -111,6 +111,9 @@ def delete_sources(ctx, F, rid):
                             ok = True
         n += 1
         top = b.path.split('::{')[0].split('::')[-1]
+        if not ok and removes_own_staging(F, b, t['args'][0]):
+            ctx.ok(rid, '%s:remove_file(own staging file)' % top, 'removes the file this staging handle created (clean-up, not a delete of the plan)', term_loc(b, bb))
+            continue
         ctx.check(ok, rid, '%s:remove_file<-plan.delete' % top, 'removed path = root.join(entry of plan.delete)',
                   '%s removes a file that does not come from plan.delete' % top, term_loc(b, bb))
     # apply_remote_deletes receives &plan.delete
